@@ -12,6 +12,7 @@ package main
 
 import (
 	"bytes"
+	"errors"
 	"fmt"
 	"math/big"
 	"strings"
@@ -388,6 +389,22 @@ func runC07(c *vx.Ctx) {
 func c07RunCase(c *vx.Ctx, p *vx.Part, cs c07Case, muts []c07Mut) {
 	s, admitted, err := c07Setup(cs)
 	if err != nil {
+		var rej core.VOwnBlockRejected
+		if errors.As(err, &rej) {
+			// the chain prefix is built by the node's own worker too: a refusal there is the same violation
+			key := "own-block-rejected:in-prefix:" + c07ErrClass(rej.Err)
+			desc := fmt.Sprintf("while building prefix %s the node rejected a block its own worker assembled: %v", cs.Prefix, err)
+			if c.Confirm(desc, func() string {
+				_, _, e2 := c07Setup(cs)
+				if errors.As(e2, &rej) {
+					return key
+				}
+				return ""
+			}) {
+				c.Violate("own-blocks+mutations", key, desc, cs)
+			}
+			return
+		}
 		c.HarnessError(fmt.Sprintf("setup %v: %v", cs, err))
 		return
 	}
